@@ -13,3 +13,14 @@ package tsi
 //@   ensures delay-steps: (result == StepPrevoteDelay ==> 3 * vs.TotalPrevotePower > 2 * vs.AvailablePower) && (result == StepPrecommitDelay ==> 3 * vs.TotalPrecommitPower > 2 * vs.AvailablePower)
 //@   ensures commit-wait-means-block-quorum: result == StepCommitWait ==> 3 * vs.PrecommitBlockPower[vs.MostVotedPrecommitHash] > 2 * vs.AvailablePower
 //@   modifies nothing
+
+// Leaving a height: the validator set the driver returned with this height's finalization becomes "previous finalization's
+// next set" (used two heights later), the set that was current becomes the previous one, and the set announced by the
+// previous finalization becomes current. Nothing of the finished height's finalization stays behind (C07).
+//@ func RoundLifecycle.CycleFinalization
+//@   property C07
+//@   ensures validator-sets-rotate: rlc.PrevFinNextValSet == old(rlc.FinalizedValSet) && rlc.PrevValSet == old(rlc.CurValSet) && rlc.CurValSet == old(rlc.PrevFinNextValSet)
+//@   ensures finalization-fields-cleared: rlc.FinalizedValSet.Validators == nil && rlc.FinalizedValSet.PubKeys == nil && rlc.FinalizedValSet.PubKeyHash == nil &&
+//@       rlc.FinalizedValSet.VotePowerHash == nil && rlc.FinalizedAppStateHash == "" && rlc.FinalizedBlockHash == ""
+//@   ensures hashes-rotate: rlc.PrevFinAppStateHash == old(rlc.FinalizedAppStateHash) && rlc.PrevBlockHash == old(rlc.FinalizedBlockHash)
+//@   modifies rlc.PrevFinNextValSet, rlc.PrevValSet, rlc.CurValSet, rlc.FinalizedValSet, rlc.PrevFinAppStateHash, rlc.FinalizedAppStateHash, rlc.PrevBlockHash, rlc.FinalizedBlockHash
